@@ -104,6 +104,27 @@ func runC03(c *Ctx) {
 	key := "spawn-cap:clamp:" + shortFn(a.Attack)
 	clampOK := len(storesAttack) > 0
 	clampWhy := "the counter is never initialised in Attack"
+	// the maximum itself, or the counter while it still holds the maximum (`workers := a.maxWorkers;
+	// if a.workers < workers { workers = a.workers }`): a load of the cell that follows a store of
+	// a.maxWorkers and precedes every other store
+	isMax := func(v ssa.Value) bool {
+		if attackerFieldLoad(v, "maxWorkers") {
+			return true
+		}
+		ld, isL := stripConv(v).(*ssa.UnOp)
+		if !isL || !isCellLoad(v) {
+			return false
+		}
+		holds := false
+		for _, st := range storesAttack {
+			if attackerFieldLoad(st.Val, "maxWorkers") && instrDominates(st, ld) {
+				holds = true
+			} else if !instrDominates(ld, st) {
+				return false
+			}
+		}
+		return holds
+	}
 	geFact := func(b *ssa.BasicBlock, subject func(ssa.Value) bool, wantGreater bool) bool {
 		// is `subject > a.maxWorkers` known true (wantGreater) / known false (!wantGreater) at b?
 		for _, f := range factsAt(b) {
@@ -113,9 +134,9 @@ func runC03(c *Ctx) {
 			}
 			var op token.Token
 			switch {
-			case subject(bo.X) && attackerFieldLoad(bo.Y, "maxWorkers"):
+			case subject(bo.X) && isMax(bo.Y):
 				op = bo.Op
-			case subject(bo.Y) && attackerFieldLoad(bo.X, "maxWorkers"):
+			case subject(bo.Y) && isMax(bo.X):
 				op = flipOp(bo.Op)
 			default:
 				continue
@@ -138,7 +159,7 @@ func runC03(c *Ctx) {
 	for _, st := range storesAttack {
 		switch {
 		case attackerFieldLoad(st.Val, "maxWorkers"):
-			if geFact(st.Block(), isCellOrWorkers, true) {
+			if geFact(st.Block(), func(v ssa.Value) bool { return isCellOrWorkers(v) && !isMax(v) }, true) {
 				overwrite = st
 			}
 			// storing maxWorkers itself always satisfies counter ≤ maxWorkers
@@ -196,8 +217,15 @@ func runC03(c *Ctx) {
 		why := "the go statement is not inside `for i := 0; i < counter; i++`"
 		for _, f := range factsAt(g.blk) {
 			bo, isBo := f.Cond.(*ssa.BinOp)
-			if !isBo || !f.Val || bo.Op != token.LSS || !isCellLoad(bo.Y) {
+			if !isBo || !f.Val || !isCellLoad(bo.Y) {
 				continue
+			}
+			// `i < n`, or `i != n` for an unsigned counter stepping by one from zero
+			if bo.Op != token.LSS {
+				b, isB := bo.X.Type().Underlying().(*types.Basic)
+				if bo.Op != token.NEQ || !isB || b.Info()&types.IsUnsigned == 0 {
+					continue
+				}
 			}
 			// classic φ[0, φ+1] or the rotated `for range n` form (index = φ+1 with φ[-1, φ+1])
 			if !rangeIndexValue(bo.X) {
